@@ -92,6 +92,9 @@ func newPkg(pkg *packages.Package, u *Universe) Package {
 		return fileLine{position.Filename, position.Line + deltaLine}
 	}
 
+	// comment groups already attributed as trailing comments of a declaration
+	trailingGroups := map[*ast.CommentGroup]bool{}
+
 	collectCommentGroup := func(c *ast.CommentGroup, isTrailing bool, stmtPos token.Pos) {
 		fl := fileLineFor(stmtPos, 0)
 
@@ -105,6 +108,9 @@ func newPkg(pkg *packages.Package, u *Universe) Package {
 		if isTrailing {
 			if cc := p.endLineToTrailingCommentGroup[fl]; cc == nil {
 				p.endLineToTrailingCommentGroup[fl] = c
+			}
+			if c != nil {
+				trailingGroups[c] = true
 			}
 		} else {
 			if cc := p.endLineToCommentGroup[fl]; cc == nil {
@@ -184,7 +190,9 @@ func newPkg(pkg *packages.Package, u *Universe) Package {
 					}
 				}
 			case *ast.CommentGroup:
-				collectCommentGroup(x, false, x.Pos())
+				if !trailingGroups[x] {
+					collectCommentGroup(x, false, x.Pos())
+				}
 			case *ast.ValueSpec:
 				collectCommentGroup(x.Doc, false, x.Pos())
 				collectCommentGroup(x.Comment, true, x.Pos())
